@@ -62,8 +62,21 @@ fn read_buffer(
     compression_codec: Option<CompressionCodec>,
     decompression_context: &mut DecompressionContext,
 ) -> Result<Buffer, ArrowError> {
-    let start_offset = buf.offset() as usize;
-    let buf_data = a_data.slice_with_length(start_offset, buf.length() as usize);
+    // offset and length come from the message metadata: check them against the body
+    let (start_offset, length) = match (usize::try_from(buf.offset()), usize::try_from(buf.length())) {
+        (Ok(offset), Ok(length)) if offset.checked_add(length).is_some_and(|end| end <= a_data.len()) => {
+            (offset, length)
+        }
+        _ => {
+            return Err(ArrowError::IpcError(format!(
+                "Buffer at offset {} with length {} is out of bounds of the {} byte message body",
+                buf.offset(),
+                buf.length(),
+                a_data.len()
+            )));
+        }
+    };
+    let buf_data = a_data.slice_with_length(start_offset, length);
     // corner case: empty buffer
     match (buf_data.is_empty(), compression_codec) {
         (true, _) | (_, None) => Ok(buf_data),
@@ -915,10 +928,13 @@ fn get_dictionary_values(
 
 /// Read the data for a given block
 fn read_block<R: Read + Seek>(mut reader: R, block: &Block) -> Result<Buffer, ArrowError> {
-    reader.seek(SeekFrom::Start(block.offset() as u64))?;
-    let body_len = block.bodyLength().to_usize().unwrap();
-    let metadata_len = block.metaDataLength().to_usize().unwrap();
-    let total_len = body_len.checked_add(metadata_len).unwrap();
+    // offset and lengths come from the file footer
+    let invalid = || ArrowError::IpcError(format!("Invalid block in file footer: {block:?}"));
+    let offset = u64::try_from(block.offset()).map_err(|_| invalid())?;
+    reader.seek(SeekFrom::Start(offset))?;
+    let body_len = block.bodyLength().to_usize().ok_or_else(invalid)?;
+    let metadata_len = block.metaDataLength().to_usize().ok_or_else(invalid)?;
+    let total_len = body_len.checked_add(metadata_len).ok_or_else(invalid)?;
 
     let mut buf = MutableBuffer::try_from_len_zeroed(total_len)
         .map_err(|e| ArrowError::MemoryError(e.to_string()))?;
@@ -930,10 +946,17 @@ fn read_block<R: Read + Seek>(mut reader: R, block: &Block) -> Result<Buffer, Ar
 ///
 /// <https://arrow.apache.org/docs/format/Columnar.html#encapsulated-message-format>
 fn parse_message(buf: &[u8]) -> Result<Message::Message<'_>, ArrowError> {
-    let buf = match buf[..4] == CONTINUATION_MARKER {
-        true => &buf[8..],
-        false => &buf[4..],
-    };
+    let buf = match buf.get(..4) {
+        Some(prefix) if prefix == CONTINUATION_MARKER => buf.get(8..),
+        Some(_) => buf.get(4..),
+        None => None,
+    }
+    .ok_or_else(|| {
+        ArrowError::ParseError(format!(
+            "Message of {} bytes is too short for its length prefix",
+            buf.len()
+        ))
+    })?;
     crate::root_as_message(buf)
         .map_err(|err| ArrowError::ParseError(format!("Unable to get root as message: {err:?}")))
 }
